@@ -196,6 +196,54 @@ def write_tree(root, files):
             f.write(text.encode("utf-8", errors="backslashreplace"))
 
 
+# ---------------------------------------------------------------- T3 tie of G/Imports.lean
+
+
+def import_tie(rep, n):
+    """Drives the real import table of derive/printer.go through the verif hooks with n seeded random request
+    sequences and has the Lean kernel check (`by decide`) that the model of G/Imports.lean computes exactly
+    the aliases / table / panic the code produced. Returns the number of validated sequences."""
+    h = common.repo_hash()
+    d = os.path.join(common.WORK, "runs-" + h + "-" + common.hash_tree(common.HARNESS, ["runs"]))
+    binp = os.path.join(d, "importtie.bin")
+    with common.Lock("runs-" + h):
+        if not os.path.exists(binp):
+            shutil.rmtree(d, ignore_errors=True)
+            shutil.copytree(os.path.join(common.HARNESS, "runs"), os.path.join(d, "src"))
+            gm = os.path.join(d, "src", "go.mod")
+            txt = open(gm).read().replace("=> /repo", "=> " + common.REPO)
+            with open(gm, "w") as f:
+                f.write(txt)
+            shutil.copy(os.path.join(common.REPO, "go.sum"), os.path.join(d, "src", "go.sum"))
+            p = common.sh(["go", "build", "-tags", "verif", "-o", binp, "./importtie"], cwd=os.path.join(d, "src"), timeout=900)
+            if p.returncode != 0:
+                raise common.CheckError("importtie does not build against %s (verif hooks missing?):\n%s" % (common.REPO, p.stderr[-3000:]))
+            for x in os.listdir(common.WORK):
+                if x.startswith("runs-") and not x.endswith(".lock") and os.path.join(common.WORK, x) != d:
+                    shutil.rmtree(os.path.join(common.WORK, x), ignore_errors=True)
+    with Scratch("tie") as sd:
+        lean_file = os.path.join(sd, "ImportTie.lean")
+        p = common.sh([binp, "-seed", str(rep.seed), "-n", str(n), "-out", lean_file], timeout=300)
+        if p.returncode != 0:
+            rep.violation("the real import table broke an assumption of the tie (an entry changed or two entries were added by one call): " + p.stderr[-400:],
+                          {"correspondence": "T3 importtie", "log": p.stderr[-2000:]}, False)
+            return 0
+        stats = json.loads(p.stdout.strip().splitlines()[-1])
+        with common.Lock("lake"):
+            q = common.sh(["lake", "env", "lean", lean_file], cwd=common.LEAN, env=dict(os.environ), timeout=1800)
+        rep.cov["import_tie"] = stats
+        if q.returncode != 0:
+            src = open(lean_file).read().splitlines()
+            bad = sorted(set(int(m.group(1)) for m in re.finditer(r"ImportTie\.lean:(\d+):", q.stdout + q.stderr)))
+            first = src[bad[0] - 1] if bad and bad[0] - 1 < len(src) else ""
+            rep.violation("correspondence T3 broken: the model of G/Imports.lean does not compute what derive/printer.go did on %d of %d sequences; first (what the CODE did, stated about the model): %s" % (
+                len(bad), stats["sequences"] + stats["unvendor_cases"], first[:600]),
+                {"correspondence": "T3 importtie (G/Imports.lean vs derive/printer.go)", "failing_examples": [src[i - 1] for i in bad[:10] if i - 1 < len(src)],
+                 "log": (q.stdout + q.stderr)[-3000:]}, False)
+            return 0
+        return stats["sequences"] + stats["unvendor_cases"]
+
+
 # ---------------------------------------------------------------- strace
 
 MUTATING = re.compile(r"^(\d+)\s+(openat|open|creat|unlink|unlinkat|rename|renameat|renameat2|mkdir|mkdirat|rmdir|chmod|fchmodat|"
